@@ -7,6 +7,7 @@
 import Orb.Simplify
 import Generated.SimplifyGo
 import Generated.PlanarGo
+import Orb.LoopForms
 
 namespace Orb.C12Tie
 open Orb Orb.Core
@@ -25,7 +26,116 @@ theorem distSegSq_tie (a b p : Pt α) :
 theorem doubleTriangleArea_tie (ls : List (Pt α)) (i j k : Nat) :
     Generated.SimplifyGo.doubleTriangleArea ls i j k = Simplify.doubleTriangleArea ls i j k := rfl
 
-theorem all_translated_SimplifyGo : Generated.SimplifyGo.translated = ["doubleTriangleArea"] := by
+/-! ### simplify/helpers.go: `runSimplify`, `lineString`, `multiLineString`, `ring`, `polygon`, `multiPolygon`
+
+The simplifier (an interface value with one method) is translated as a PURE TOTAL function
+`f : List (Pt α) → Bool → List (Pt α)`; the model's simplifier answers in `R` (it may fail), and the ties are at the
+simplifier `okS f = fun ls area => .ok (f ls area)`.  `multiLineString` rewrites its lines in place (`List.set`,
+turned into `List.map` by `foldl_set_map`); `polygon` and `multiPolygon` compact in place
+(`x[count] = r; count++ … x[:count]`, translated with `List.set` / `List.take`), which
+`Orb.LoopForms.compact_loop` turns into `compactFrom` — what is kept, in order. -/
+
+open Orb.LoopForms Orb.Simplify
+
+/-- a simplifier that never fails -/
+def okS (f : List (Pt α) → Bool → List (Pt α)) : Simplifier α := fun ls area => .ok (f ls area)
+
+theorem runSimplify_tie (f : List (Pt α) → Bool → List (Pt α)) (ls : List (Pt α)) (area : Bool) :
+    Simplify.runSimplify (okS f) ls area = .ok (Generated.SimplifyGo.runSimplify f ls area) := by
+  unfold Simplify.runSimplify Generated.SimplifyGo.runSimplify okS
+  split <;> rfl
+
+theorem lineString_tie (f : List (Pt α) → Bool → List (Pt α)) (ls : List (Pt α)) :
+    Simplify.lineString (okS f) ls = .ok (Generated.SimplifyGo.lineString f ls) := runSimplify_tie f ls false
+
+theorem ring_tie (f : List (Pt α) → Bool → List (Pt α)) (r : List (Pt α)) :
+    Simplify.ring (okS f) r = .ok (Generated.SimplifyGo.ring f r) := runSimplify_tie f r true
+
+theorem multiLineString_map (f : List (Pt α) → Bool → List (Pt α)) (mls : List (List (Pt α))) :
+    Generated.SimplifyGo.multiLineString f mls = mls.map (fun l => Generated.SimplifyGo.runSimplify f l false) :=
+  foldl_set_map (fun l => Generated.SimplifyGo.runSimplify f l false) [] mls
+
+theorem multiLineString_tie (f : List (Pt α) → Bool → List (Pt α)) (mls : List (List (Pt α))) :
+    Simplify.multiLineString (okS f) mls = .ok (Generated.SimplifyGo.multiLineString f mls) := by
+  rw [multiLineString_map]
+  induction mls with
+  | nil => rfl
+  | cons l t ih => simp only [Simplify.multiLineString, runSimplify_tie, ih, List.map_cons]
+
+/-- what `polygon` keeps of ring number `i`: every simplified ring but the holes left with at most two points -/
+def keepRing (f : List (Pt α) → Bool → List (Pt α)) (i : Nat) (x : List (Pt α)) : Option (List (Pt α)) :=
+  let r := Generated.SimplifyGo.runSimplify f x true
+  if i ≠ 0 ∧ r.length ≤ 2 then none else some r
+
+theorem polygon_compact (f : List (Pt α) → Bool → List (Pt α)) (p : List (List (Pt α))) :
+    Generated.SimplifyGo.polygon f p = compactFrom (keepRing f) 0 p := by
+  rw [← compact_loop (keepRing f) [] p]
+  have hstep : (fun ((count, p) : Nat × List (List (Pt α))) (i : Nat) =>
+      let r : List (Pt α) := Generated.SimplifyGo.runSimplify f (p.getD i []) true
+      if i ≠ 0 ∧ r.length ≤ 2 then (count, p)
+      else
+        let p : List (List (Pt α)) := p.set count r
+        let count : Nat := count + 1
+        (count, p)) = compactStep (keepRing f) [] := by
+    funext st i
+    obtain ⟨count, q⟩ := st
+    simp only [compactStep, keepRing]
+    split <;> rfl
+  unfold Generated.SimplifyGo.polygon
+  simp only []
+  rw [hstep]
+
+theorem polygonFrom_tie (f : List (Pt α) → Bool → List (Pt α)) (i : Nat) (p : List (List (Pt α))) :
+    Simplify.polygonFrom (okS f) i p = .ok (compactFrom (keepRing f) i p) := by
+  induction p generalizing i with
+  | nil => rfl
+  | cons r t ih =>
+    simp only [Simplify.polygonFrom, runSimplify_tie, ih, compactFrom, keepRing]
+    split <;> rfl
+
+theorem polygon_tie (f : List (Pt α) → Bool → List (Pt α)) (p : List (List (Pt α))) :
+    Simplify.polygon (okS f) p = .ok (Generated.SimplifyGo.polygon f p) := by
+  rw [polygon_compact]; exact polygonFrom_tie f 0 p
+
+/-- what `multiPolygon` keeps: the simplified polygons that still have an outer ring with more than two points -/
+def keepPolygon (f : List (Pt α) → Bool → List (Pt α)) (_ : Nat) (x : List (List (Pt α))) : Option (List (List (Pt α))) :=
+  let p := Generated.SimplifyGo.polygon f x
+  if p.length = 0 ∨ (p.getD 0 []).length ≤ 2 then none else some p
+
+theorem multiPolygon_compact (f : List (Pt α) → Bool → List (Pt α)) (mp : List (List (List (Pt α)))) :
+    Generated.SimplifyGo.multiPolygon f mp = compactFrom (keepPolygon f) 0 mp := by
+  rw [← compact_loop (keepPolygon f) [] mp]
+  have hstep : (fun ((count, mp) : Nat × List (List (List (Pt α)))) (i : Nat) =>
+      let p : List (List (Pt α)) := Generated.SimplifyGo.polygon f (mp.getD i [])
+      if p.length = 0 ∨ ((p.getD 0 []).length) ≤ 2 then (count, mp)
+      else
+        let mp : List (List (List (Pt α))) := mp.set count p
+        let count : Nat := count + 1
+        (count, mp)) = compactStep (keepPolygon f) [] := by
+    funext st i
+    obtain ⟨count, q⟩ := st
+    simp only [compactStep, keepPolygon]
+    split <;> rfl
+  unfold Generated.SimplifyGo.multiPolygon
+  simp only []
+  rw [hstep]
+
+theorem multiPolygon_tie (f : List (Pt α) → Bool → List (Pt α)) (mp : List (List (List (Pt α)))) :
+    Simplify.multiPolygon (okS f) mp = .ok (Generated.SimplifyGo.multiPolygon f mp) := by
+  rw [multiPolygon_compact]
+  generalize (0 : Nat) = i
+  induction mp generalizing i with
+  | nil => rfl
+  | cons p t ih =>
+    simp only [Simplify.multiPolygon, polygon_tie, ih (i + 1), compactFrom, keepPolygon]
+    cases hp : Generated.SimplifyGo.polygon f p with
+    | nil => simp
+    | cons r0 rs =>
+      simp only [List.length_cons, Nat.succ_ne_zero, false_or, List.getD_cons_zero]
+      split <;> rfl
+
+theorem all_translated_SimplifyGo : Generated.SimplifyGo.translated =
+    ["doubleTriangleArea", "runSimplify", "lineString", "multiLineString", "ring", "polygon", "multiPolygon"] := by
   decide
 
 end Orb.C12Tie
